@@ -314,3 +314,53 @@ def run(model, document, variables=None, world=None, operation_name=None, root=N
     ex = Executor(model, document, variables or {}, world or World())
     data = ex.execute(operation_name, root)
     return data, sorted(ex.errors, key=repr)
+
+
+# ---------------------------------------------------------------------------------------------
+def reference_depth(document, operation, variables):
+    """Nesting depth of an operation as MaxDepthValidationRule's docstring defines it: levels below the root fields
+    along the longest selected field path, through inline fragments and fragment spreads at any level (type conditions
+    ignored: no schema is consulted), @skip/@include evaluated with `variables`, same-response-key fields merged."""
+    frags = {d.name.value: d for d in document.definitions if type(d).__name__ == "FragmentDefinition"}
+
+    def directive_value(node):
+        if type(node).__name__ == "Variable":
+            return variables.get(node.name.value)
+        return node.value
+
+    def skipped(sel):
+        for d in sel.directives:
+            if d.name.value in ("skip", "include"):
+                v = directive_value([a for a in d.arguments if a.name.value == "if"][0].value)
+                if (d.name.value == "skip" and v) or (d.name.value == "include" and not v):
+                    return True
+        return False
+
+    def collect(selections, visited, grouped):
+        for sel in selections:
+            if skipped(sel):
+                continue
+            k = type(sel).__name__
+            if k == "Field":
+                grouped.setdefault(sel.alias.value if sel.alias else sel.name.value, []).append(sel)
+            elif k == "FragmentSpread":
+                if sel.name.value in visited or sel.name.value not in frags:
+                    continue
+                visited.add(sel.name.value)
+                collect(frags[sel.name.value].selection_set.selections, visited, grouped)
+            else:
+                collect(sel.selection_set.selections, visited, grouped)
+        return grouped
+
+    def longest(selections):
+        """number of field levels in the longest path starting in this selection set"""
+        best = 0
+        for fields in collect(selections, set(), {}).values():
+            sub = []
+            for f in fields:
+                if f.selection_set is not None:
+                    sub.extend(f.selection_set.selections)
+            best = max(best, 1 + (longest(sub) if sub else 0))
+        return best
+
+    return max(longest(operation.selection_set.selections) - 1, 0)
